@@ -47,6 +47,11 @@ def gen_program(rng, features=None, n_nodes=None, n_modules=None):
             nd["explicit"] = "v1"
         if kind == "memento" and nd["explicit"] is None and rng.random() < F.get("p_salt", 0.1):
             nd["salt"] = "s1"
+        if kind == "memento" and i != 0 and nd["explicit"] is None and pkg[mod] == 0 and rng.random() < F.get("p_noauto", 0.08):
+            # automatic dependency detection switched off: only what dependencies=[...] declares is tracked, so this
+            # function names nothing but its declared (same-module) callees
+            nd["noauto"] = True
+            nd["builtin"] = None
         if rng.random() < F.get("p_nested", 0.5):
             nd["nested"] = 1
             nd["nestkind"] = rng.choice(["lambda", "listcomp", "genexp", "innerdef"])
@@ -63,6 +68,8 @@ def gen_program(rng, features=None, n_nodes=None, n_modules=None):
         if rng.random() < F.get("p_recur", 0.15):
             nd["recur"] = True
         for g in glob:
+            if nd.get("noauto"):
+                break
             if g["module"] >= mod and pkg[g["module"]] == pkg[mod] and rng.random() < 0.35:
                 nd["globals"].append(g["id"])
         if pkg[mod] == 1:
@@ -89,7 +96,7 @@ def gen_program(rng, features=None, n_nodes=None, n_modules=None):
                 gid = len(glob)
                 glob.append({"id": gid, "name": "GS", "module": mm, "kind": kind, "value": _gval(kind, 1 + len(ids))})
                 ids.append(gid)
-            readers = [nd for nd in nodes if nd["module"] <= ma and pkg[nd["module"]] == pkg[ma] and not nd.get("frozen")]
+            readers = [nd for nd in nodes if nd["module"] <= ma and pkg[nd["module"]] == pkg[ma] and not nd.get("frozen") and not nd.get("noauto")]
             if readers:
                 rd = readers[rng.randrange(len(readers))]
                 rd["globals"] = [g for g in rd["globals"] if g not in ids] + ids
@@ -107,6 +114,10 @@ def gen_program(rng, features=None, n_nodes=None, n_modules=None):
             tj = nodes[j]
             if tj["module"] < nd["module"]:
                 continue
+            if nd.get("noauto"):
+                if tj["module"] == nd["module"] and not tj.get("frozen") and rng.random() < F.get("p_edge", 0.45):
+                    nd["calls"].append({"to": j, "form": "declared"})
+                continue
             if rng.random() < F.get("p_edge", 0.45):
                 form = "bare" if tj["module"] == nd["module"] else "attr"
                 r = rng.random()
@@ -120,21 +131,26 @@ def gen_program(rng, features=None, n_nodes=None, n_modules=None):
                     # the callee is named only in dependencies=[...] of the decorator and called dynamically: a declared
                     # (required) dependency; the library resolves it when the caller is defined, so the callee comes first
                     form = "declared"
-                nd["calls"].append({"to": j, "form": form})
+                c = {"to": j, "form": form}
+                if form in ("bare", "attr", "alias", "wrapped") and rng.random() < F.get("p_argattr", 0.1):
+                    # the reference sits inside the arguments of a call whose result is used through an attribute:
+                    # list((g(x),)).pop()
+                    c["argattr"] = True
+                nd["calls"].append(c)
     # mutual recursion: a back edge j -> i (i < j, same module) closes a cycle through the forward edges; it passes
     # x - 1 and is taken only while x > 0, so every cycle terminates (forward edges pass x unchanged)
     if rng.random() < F.get("p_back", 0.3):
         for _ in range(rng.choice([1, 1, 2])):
             cands = [(b["id"], a["id"]) for a in nodes for b in nodes
                      if b["id"] > a["id"] and b["module"] == a["module"] and not b.get("frozen") and not a.get("frozen")
-                     and not any(c["to"] == a["id"] for c in b["calls"])]
+                     and not b.get("noauto") and not any(c["to"] == a["id"] for c in b["calls"])]
             if cands:
                 j, i = cands[rng.randrange(len(cands))]
                 nodes[j]["calls"].append({"to": i, "form": "bare", "back": True})
     # a memento function may receive another memento function as an argument and call it (legal), and may in
     # addition reach the same function through a hidden dynamic call (legal only when it was passed)
     for nd in nodes:
-        if nd["kind"] == "memento" and nd["explicit"] is None and rng.random() < F.get("p_fparam", 0.2):
+        if nd["kind"] == "memento" and nd["explicit"] is None and not nd.get("noauto") and rng.random() < F.get("p_fparam", 0.2):
             cands = [t["id"] for t in nodes if t["id"] > nd["id"] and t["module"] >= nd["module"] and t["kind"] == "memento"]
             if cands:
                 j = cands[rng.randrange(len(cands))]
@@ -147,6 +163,13 @@ def gen_program(rng, features=None, n_nodes=None, n_modules=None):
         if nd["nested"] is not None and bare and rng.random() < F.get("p_shadow", 0.25):
             nd["shadow"] = bare[rng.randrange(len(bare))]
     prog = {"modules": mods, "pkg": pkg, "nodes": nodes, "globals": glob, "order": {}, "bshadow": {}}
+    if rng.random() < F.get("p_inith", 0.25):
+        # a plain helper defined in the package's __init__.py, used by functions of its sub-modules
+        users = [nd for nd in nodes if pkg[nd["module"]] == 0 and not nd.get("frozen") and nd["kind"] != "foreign" and not nd.get("noauto")]
+        if users:
+            prog["inith"] = {"const": 1}
+            for nd in rng.sample(users, rng.randrange(1, min(3, len(users)) + 1)):
+                nd["usesinit"] = True
     for mi in range(n_modules):
         prog["order"][str(mi)] = default_order(prog, mi)
     return prog
@@ -239,6 +262,8 @@ def mod_alias(mi):
 def header(prog, mi, base=None):
     lines = ["import twosigma.memento as m", "import functools as _vft", "",
              "def _vdeco(fn):", "    @_vft.wraps(fn)", "    def wrapper(*a, **k):", "        return fn(*a, **k)", "    return wrapper", ""]
+    if prog.get("inith") and any(nd.get("usesinit") and nd["module"] == mi for nd in prog["nodes"]):
+        lines.append("from . import hinit")
     for mj in range(mi + 1, len(prog["modules"])):
         if pkg_of(prog, mj) == pkg_of(prog, mi):
             lines.append("from . import %s as %s" % (prog["modules"][mj], mod_alias(mj)))
@@ -263,6 +288,8 @@ def render_wrapped(prog, callee):
 
 
 def call_expr(prog, nd, c):
+    if c.get("argattr"):
+        return "list((%s,)).pop()" % call_expr(prog, nd, dict(c, argattr=False))
     if c.get("back"):
         return "(%s if x > 0 else None)" % call_expr(prog, nd, dict(c, back=False)).replace("(x)", "(x - 1)")
     t = prog["nodes"][c["to"]]
@@ -309,6 +336,8 @@ def layout(prog, nid):
         lab.append("param:%d" % j)
     if nd.get("builtin"):
         lab.append("builtin")
+    if nd.get("usesinit"):
+        lab.append("inith")
     if nd["recur"]:
         lab.append("recur")
     return lab
@@ -338,6 +367,8 @@ def render_node(prog, nid, decorator="m.memento_function"):
             args.append("version=%r" % nd["explicit"])
         if nd["salt"] is not None:
             args.append("version_salt=%r" % nd["salt"])
+        if nd.get("noauto"):
+            args.append("auto_dependencies=False")
         decl = [prog["nodes"][c["to"]]["name"] for c in nd["calls"] if c["form"] == "declared"]
         if decl:
             args.append("dependencies=[%s]" % ", ".join('"%s"' % d for d in decl))
@@ -387,12 +418,20 @@ def render_node(prog, nid, decorator="m.memento_function"):
         items.append("(p%d(x) if p%d is not None else None)" % (j, j))
     if nd.get("builtin"):
         items.append("abs(x)")
+    if nd.get("usesinit"):
+        items.append("hinit(x)")
     if nd["recur"]:
         items.append("%s(x - 1)" % nd["name"])
     if nd.get("lam") and nd["kind"] == "plain" and not nd["recur"] and not (nd["nested"] is not None and nd["nestkind"] == "innerdef"):
         return '%s = lambda %s: (__vtrace__("%s", x), [%s])[1]\n' % (nd["name"], ", ".join(params), nd["name"], ", ".join(items))
     lines.append("    return [%s]" % ", ".join(items))
     return "\n".join(lines) + "\n"
+
+
+def render_init(prog):
+    if not prog.get("inith"):
+        return ""
+    return 'def hinit(x):\n    return ["hinit", x, %d]\n' % prog["inith"]["const"]
 
 
 def render_bshadow(prog, mi):
@@ -438,7 +477,10 @@ def write_package(prog, srcdir, pkg=None, orders=None):
         d = os.path.join(srcdir, pkg_of(prog, mi, base))
         os.makedirs(d, exist_ok=True)
         init = os.path.join(d, "__init__.py")
-        if not os.path.exists(init):
+        if pkg_of(prog, mi, base) == base:
+            with open(init, "w") as f:
+                f.write(render_init(prog))
+        elif not os.path.exists(init):
             open(init, "w").close()
         with open(os.path.join(d, name + ".py"), "w") as f:
             f.write(render_module(prog, mi, order=(orders or {}).get(str(mi)), base=base))
@@ -480,6 +522,8 @@ def evaluate(prog, nid, x, y=None, depth=0, fnargs=None):
     if nd.get("builtin"):
         sh = (prog.get("bshadow") or {}).get(str(nd["module"]))
         out.append(["abs", x, sh] if sh is not None else abs(x))
+    if nd.get("usesinit"):
+        out.append(["hinit", x, prog["inith"]["const"]])
     if nd["recur"]:
         out.append(evaluate(prog, nid, x - 1, depth=depth + 1))
     return out
@@ -603,7 +647,7 @@ def classify(prog_now, nid, got, exp, depth=0):
 # ----------------------------------------------------------------------------- edits
 
 EDIT_KINDS = ["const", "nested", "setc", "tup", "fstr", "posdef", "kwdef", "global", "add_edge", "del_edge",
-              "retarget", "swap_kind", "salt", "explicit_body", "insert_helper", "toggle_recur", "define_builtin"]
+              "retarget", "swap_kind", "salt", "explicit_body", "insert_helper", "toggle_recur", "define_builtin", "inith"]
 
 
 def gen_edit(rng, prog, counter, weights=None):
@@ -614,9 +658,15 @@ def gen_edit(rng, prog, counter, weights=None):
         w = (w + [1.2] * len(EDIT_KINDS))[:len(EDIT_KINDS)]
         kind = rng.choices(EDIT_KINDS, w)[0]
         nd = nodes[rng.randrange(len(nodes))]
+        if nd.get("noauto") and kind in ("swap_kind", "insert_helper", "retarget"):
+            continue
         if nd.get("frozen") or (kind in ("swap_kind", "insert_helper", "toggle_recur") and (prog.get("pkg") or [0])[min(nd["module"], len(prog.get("pkg") or [0]) - 1)]):
             continue
         v = counter + 2
+        if kind == "inith":
+            if not prog.get("inith"):
+                continue
+            return {"kind": "inith", "value": v}
         if kind == "define_builtin":
             users = [n for n in nodes if n.get("builtin") and not n.get("frozen")]
             if not users:
@@ -644,12 +694,18 @@ def gen_edit(rng, prog, counter, weights=None):
             form = "bare" if nodes[a]["module"] == nodes[b]["module"] else "attr"
             if nodes[b]["kind"] == "memento" and nodes[a]["explicit"] is None and rng.random() < 0.15:
                 form = "hidden"
+            if nodes[a].get("noauto"):
+                if nodes[a]["module"] != nodes[b]["module"] or nodes[b]["kind"] == "foreign":
+                    continue
+                form = "declared"
             return {"kind": "add_edge", "node": a, "to": b, "form": form}
         if kind in ("del_edge", "retarget"):
             cands = [(a["id"], c["to"]) for a in nodes for c in a["calls"]]
             if not cands:
                 continue
             a, b = cands[rng.randrange(len(cands))]
+            if kind == "retarget" and nodes[a].get("noauto"):
+                continue
             if kind == "del_edge":
                 return {"kind": "del_edge", "node": a, "to": b}
             new = [t["id"] for t in nodes if t["id"] > a and t["module"] >= nodes[a]["module"]
@@ -727,6 +783,9 @@ def apply_edit(prog, e):
     if k in ("const", "nested", "setc", "tup", "fstr", "posdef", "kwdef", "salt"):
         nodes[e["node"]][k] = e["value"]
         touched.add(("n", e["node"]))
+    elif k == "inith":
+        p["inith"]["const"] = e["value"]
+        touched.add(("i", 0))
     elif k == "set_explicit":
         # the user edits an explicitly versioned function and chooses the new version string (crafted histories)
         nodes[e["node"]]["explicit"] = e["value"]
@@ -752,6 +811,8 @@ def apply_edit(prog, e):
         if e["to"] < len(nodes) and not any(c["to"] == e["to"] for c in a["calls"]) and e["to"] != e["node"] \
                 and nodes[e["to"]]["module"] >= a["module"] and not reaches(p, e["to"], e["node"]):
             form = e["form"]
+            if a.get("noauto"):
+                form = "declared"
             if form == "hidden" and (nodes[e["to"]]["kind"] != "memento" or a["explicit"] is not None):
                 form = "bare" if nodes[e["to"]]["module"] == a["module"] else "attr"
             a["calls"].append({"to": e["to"], "form": form})
@@ -848,6 +909,10 @@ def explicit_bumps(prog, touched_nodes, counter):
             if reach & set(touched_nodes):
                 out.append(e["id"])
     return out
+
+
+def init_users(prog):
+    return [nd["id"] for nd in prog["nodes"] if nd.get("usesinit")]
 
 
 def global_users(prog, gid):
